@@ -26,6 +26,7 @@ func init() {
 		Run: runC17,
 		Controls: []Control{
 			{Name: "empty-segment-serialized", File: "protocols/bgp/packet/path_attributes.go", Old: "\t\tif len(segment.ASNs) == 0 {\n\t\t\tcontinue\n\t\t}\n", New: "", Expect: "no-empty-segment-on-the-wire"},
+			{Name: "attribute-copied-without-its-flags", File: "protocols/bgp/server/update_sender.go", Old: "\t\t\tcurCopy = cur.Copy()\n", New: "\t\t\tcurCopy = &packet.PathAttribute{TypeCode: cur.TypeCode, Value: cur.Value}\n", Expect: "hand-written-copy-names-every-field"},
 			{Name: "send-only-peer-falls-through-to-tx", File: "protocols/bgp/server/fsm_open_sent.go", Old: "\t\tcase packet.AddPathSend:\n\t\t\tif peerAddressFamily.addPathReceive {\n\t\t\t\tf.addPathRX = true\n\t\t\t}\n\t\tcase packet.AddPathSendReceive:\n", New: "\t\tcase packet.AddPathSend:\n\t\t\tif peerAddressFamily.addPathReceive {\n\t\t\t\tf.addPathRX = true\n\t\t\t}\n\t\t\tfallthrough\n\t\tcase packet.AddPathSendReceive:\n", Expect: "capability-needs-both-sides"},
 			{Name: "decoder-rejects-the-role-mismatch-sub-code", File: "protocols/bgp/packet/decoder.go", Old: "\t\tif (msg.ErrorSubcode > UnacceptableHoldTime && msg.ErrorSubcode != RoleMismatchError) || msg.ErrorSubcode == 0 || msg.ErrorSubcode == DeprecatedOpenMsgError5 {", New: "\t\tif msg.ErrorSubcode > UnacceptableHoldTime || msg.ErrorSubcode == 0 || msg.ErrorSubcode == DeprecatedOpenMsgError5 {", Expect: "emitted-notifications-decode"},
 			{Name: "as-path-position-advanced-by-a-narrow-product", File: "protocols/bgp/packet/path_attributes.go", Old: "\t\t\tp += uint16(asnLength)\n", New: "\t\t\tp += uint16(asnLength*count) / uint16(count)\n", Expect: "product-computed-in-the-wide-type"},
@@ -182,6 +183,7 @@ func lenDerived(f *core.Fn, e ast.Expr, depth int) bool {
 }
 
 func runC17(c *core.Ctx) {
+	handWrittenCopiesAreComplete(c, "hand-written-copy-names-every-field")
 	capabilityStores(c)
 	p := c.P
 	roots := []*core.Fn{}
